@@ -6,6 +6,7 @@
 import MellonProofs.KernelLemmas
 import MellonProofs.MatrixBridge
 import MellonModel.Inference
+import MellonProofs.InferenceLemmas
 import Mathlib.LinearAlgebra.Matrix.Orthogonal
 import Mathlib.Data.Matrix.Mul
 
@@ -214,6 +215,54 @@ theorem nnLoglik_scale {n : Nat} (a d : ℝ) (ha : 0 < a) (r r' ld ld' : Vector 
     rw [hr' i hi', hld i hi', nnTerm_scale a _ d _ ha (hr i hi')]
   rw [Finset.sum_congr rfl this, Finset.sum_sub_distrib]
   simp
+
+/-- **The auto-selected length scale scales with the data**: with all nearest-neighbour distances
+    multiplied by `a > 0`, `compute_ls` (and the estimator's `ls = compute_ls · ls_factor`) is multiplied
+    by `a` — so `distance / ls`, hence every Gram matrix and the factor `L`, is unchanged
+    (`profile_scale_invariant`), which is the hypothesis "same `L`" of `loss_scale`. -/
+theorem ls_scale {n : Nat} (hn : 0 < n) (a : ℝ) (ha : 0 < a) (r r' : Vector ℝ n)
+    (hr : ∀ i, i < n → 0 < r.nth i) (hr' : ∀ i, i < n → r'.nth i = a * r.nth i) (lsFactor : ℝ) :
+    computeLs r' = a * computeLs r ∧ estimatorLs r' lsFactor = a * estimatorLs r lsFactor := by
+  have h : computeLs r' = a * computeLs r := by
+    unfold computeLs
+    simp only [exp_real, log_real, lit3, nsum_eq_sum]
+    have hs : ∑ i ∈ range n, Real.log (r'.nth i)
+        = (n : ℝ) * Real.log a + ∑ i ∈ range n, Real.log (r.nth i) := by
+      rw [Finset.sum_congr rfl (fun i hi => by
+        rw [hr' i (mem_range.mp hi), Real.log_mul ha.ne' (hr i (mem_range.mp hi)).ne'])]
+      rw [Finset.sum_add_distrib]; simp
+    rw [hs]
+    have hn' : (n : ℝ) ≠ 0 := by exact_mod_cast hn.ne'
+    have e : ((n : ℝ) * Real.log a + ∑ i ∈ range n, Real.log (r.nth i)) / (n : ℝ) + 3
+        = Real.log a + ((∑ i ∈ range n, Real.log (r.nth i)) / (n : ℝ) + 3) := by
+      field_simp; ring
+    rw [e, Real.exp_add, Real.exp_log ha]
+  exact ⟨h, by unfold estimatorLs; rw [h]; ring⟩
+
+/-- **The auto-selected prior mean shifts with the data**: with all nearest-neighbour distances
+    multiplied by `a > 0` (scalar dimensionality `d`), `compute_mu` — the interpolated 1st percentile of
+    the MLE log-densities minus 10 — shifts by exactly `−d·log a`, which is the hypothesis on `mu` of
+    `loss_scale` (every order statistic shifts: `sortAsc_map_sub`, `quantile01_map_sub`). -/
+theorem mu_scale {n : Nat} (hn : 0 < n) (a d : ℝ) (ha : 0 < a) (r r' : Vector ℝ n)
+    (hr : ∀ i, i < n → 0 < r.nth i) (hr' : ∀ i, i < n → r'.nth i = a * r.nth i) :
+    computeMu r' (.scalar d) = computeMu r (.scalar d) - d * Real.log a := by
+  unfold computeMu
+  have hv : (mleVec r' (.scalar d)).toList
+      = ((mleVec r (.scalar d)).toList).map (· - d * Real.log a) := by
+    unfold mleVec
+    rw [toList_vecOfFn, toList_vecOfFn, List.map_map]
+    apply List.map_congr_left
+    intro i hi
+    have hi' : i < n := List.mem_range.mp hi
+    simp only [Function.comp, DimArg.get]
+    rw [hr' i hi', mle_scale a _ d ha (hr i hi')]
+  rw [hv, quantile01_map_sub _ (by unfold mleVec; rw [toList_vecOfFn]; simpa using hn)]
+  exact sub_right_comm _ _ _
+
+/-- Non-vacuity: distances `[1, 2]` scaled by `a = 2` satisfy the hypotheses of `ls_scale` / `mu_scale`. -/
+example : (∀ i, i < 2 → 0 < (#v[(1:ℝ), 2] : Vector ℝ 2).nth i) := by
+  intro i hi
+  interval_cases i <;> norm_num [Vector.nth, Vector.nthD]
 
 /-- **Scale covariance of the inference problem.** With distances scaled by `a`, the same factor
     `L` (Gram matrices are unchanged when the length scale scales with the data) and the prior mean
